@@ -19,10 +19,11 @@
 //!            deliver the answer | x<t> callback(CANCEL) | R<t>.<e0>.<e1>.<e2> raw callback;
 //!            host side (S mode: performed in place; B mode: one per `on_block`, then an implicit fair tail):
 //!            r<i> complete the i-th pending op | d<i> peer drops its end | p<i> STARTING -> STARTED |
-//!            w<j> signal event j from outside every task | z drop all stored wakers
+//!            w<j> signal event j from outside every task | k<j> the same from inside a C-ABI waitable
+//!            callback (extern "C" frame) | z drop all stored wakers
 //! Output: the host log with the driver's observations in the same total order
 //!   `>start:T tnew:T tfree:T start:T=CODE cb:T:E0,E1,E2=CODE bon:T spawn:B bfin:B bdrop:B treturn:B
-//!    opdone:K call:K=PACKED lift:K fwait:J:B wflag:J xwake:J ystep:B` and `PANIC:<message>` if the runtime panicked.
+//!    op:K opdone:K call:K=PACKED lift:K fwait:J:B wflag:J xwake:J kwake:J ystep:B` and `PANIC:<message>` if the runtime panicked.
 //! (`tnew`/`tfree` = allocation / release of the `Box<TaskState>`, found by address through `WatchAlloc`.)
 use rtmock::{alloc, drive, host};
 use std::alloc::Layout;
@@ -46,7 +47,7 @@ struct OpDecl { kind: Kind, imm: bool, starting: bool }
 enum Step { Await(usize), Yield, Spawn(usize), Flag(u32), Wake(u32), Join(usize, u32), Ctx, Detach(usize) }
 
 #[derive(Clone, Copy, Debug)]
-enum Action { Start(u32), None_(u32), Event(u32), Cancel(u32), Resolve(usize), DropPeer(usize), Progress(usize), Wake(u32), Raw(u32, u32, u32, u32), Cleanup }
+enum Action { Start(u32), None_(u32), Event(u32), Cancel(u32), Resolve(usize), DropPeer(usize), Progress(usize), Wake(u32), WakeC(u32), Raw(u32, u32, u32, u32), Cleanup }
 
 #[derive(Clone, Copy, Default)]
 struct OpRt { started: bool, finished: bool, w: u32, chan: usize }
@@ -151,6 +152,7 @@ fn op_fresh(k: usize) -> bool {
 
 async fn await_op(k: usize) {
     let d = hw(|h| { h.oprt[k].started = true; h.ops[k] });
+    host::log(format!("op:{k}"));
     {
         let _fin = Fin(k);
         match d.kind {
@@ -233,6 +235,12 @@ fn signal_flag(j: u32) {
             None => break,
         }
     }
+}
+
+/// a C-ABI waitable callback (`callback(callback_ptr, code)`) whose effect is to signal event `code`:
+/// the wake happens inside an `extern "C"` frame (a runtime panic there aborts the process)
+unsafe extern "C" fn relay_cb(_ptr: *mut std::ffi::c_void, code: u32) {
+    signal_flag(code)
 }
 
 fn cleanup_wakers() {
@@ -364,6 +372,7 @@ fn host_action(a: Action) {
             if kind == Kind::Sub && starting { host::set_event(o.w, host::STATUS_STARTED) }
         },
         Action::Wake(j) => { host::log(format!("xwake:{j}")); signal_flag(j) }
+        Action::WakeC(j) => { host::log(format!("kwake:{j}")); unsafe { relay_cb(std::ptr::null_mut(), j) } }
         _ => {}
     }
 }
@@ -409,6 +418,7 @@ fn parse_action(s: &str) -> Action {
         b'd' => Action::DropPeer(num(r) as usize),
         b'p' => Action::Progress(num(r) as usize),
         b'w' => Action::Wake(num(r)),
+        b'k' => Action::WakeC(num(r)),
         b'z' => Action::Cleanup,
         b'R' => { let v: Vec<u32> = r.split('.').map(num).collect(); Action::Raw(v[0], v[1], v[2], v[3]) }
         _ => panic!("bad action {s}"),
@@ -582,7 +592,7 @@ fn scenario(line: &str) -> String {
     out.join(" ")
 }
 
-fn main() {
+pub fn main() {
     let sz = calibrate();
     unsafe { BOX_SIZE = sz };
     drive::run_lines(scenario);
